@@ -151,3 +151,20 @@ Proof.
   unfold reorg_truncated_atb. intros H. repeat (apply andb_true_iff in H as [H ?]).
   by apply reorg_truncatedb_sound.
 Qed.
+
+(* ---------- the conditions of a reorganisation, as a test for the trace monitor ---------- *)
+(* whenever accepted headers were replaced: the branch OFFERED by the message
+   (from the first replacing header on) is valid header by header, matches
+   every hard-coded checkpoint, and what was stored is its part up to the
+   first checkpoint height *)
+Definition reorg_conditions_b (P : params) (now : Z) (before after msg : list header) : bool :=
+  let cp := common_prefix before after in
+  match drop (length cp) before, drop (length cp) after with
+  | _ :: _, b0 :: b =>
+    let offered := offered_branch before after msg in
+    (length (valid_run P now cp offered) =? length offered)%nat &&
+    checkpoints_ok P (cp ++ offered) &&
+    hdrs_eqb (b0 :: b) (upto_checkpoint P (zlen cp - 1) offered)
+  | _, _ => true
+  end.
+
